@@ -71,9 +71,9 @@ func Stateful() []Table {
 	add("Lag", [][]float64{{0}, {1}, {7}, {3.5}}, 1, M{"timeLag": 0}, M{"timeLag": 1}, M{"timeLag": 2}, M{"timeLag": 3}, M{"timeLag": 5})
 
 	// constituent transport: (loads..., outflow, storage)
-	lcL := [][]float64{{0, 0, 0, 0}, {2, 0, 5, 1e3}, {0, 1, 5, 1e3}, {40, 3, 120, 1e6}, {2, 0, 0, 5e-3}, {2, 1, 0, 1e3}}
+	lcL := [][]float64{{0, 0, 0, 0}, {0, 0, 5, 1e3}, {2, 0, 5, 1e3}, {0, 1, 5, 1e3}, {40, 3, 120, 1e6}, {2, 0, 0, 5e-3}, {2, 1, 0, 1e3}}
 	add("LumpedConstituentRouting", lcL, 1, M{"X": 0, "pointInput": 0, "DeltaT": 86400}, M{"X": 0.2, "pointInput": 0.5, "DeltaT": 3600})
-	cdL := [][]float64{{0, 0, 0, 0, 0}, {2, 0, 5, 5, 1e3}, {0, 1, 5, 5, 1e3}, {40, 3, 100, 120, 1e6}, {2, 0, 0, 0, 5e-3}, {2, 1, 1, 0, 1e3}}
+	cdL := [][]float64{{0, 0, 0, 0, 0}, {0, 0, 5, 5, 1e3}, {2, 0, 5, 5, 1e3}, {0, 1, 5, 5, 1e3}, {40, 3, 100, 120, 1e6}, {2, 0, 0, 0, 5e-3}, {2, 1, 1, 0, 1e3}}
 	add("ConstituentDecay", cdL, 1, M{"halfLife": 0, "DeltaT": 86400}, M{"halfLife": 86400 * 3, "DeltaT": 86400}, M{"halfLife": 3600, "DeltaT": 3600})
 	fine := M{"bankFullFlow": 50, "fineSedSettVelocityFlood": 1e-5, "floodPlainArea": 1e6, "linkWidth": 20, "linkLength": 5000, "linkSlope": 0.001, "bankHeight": 2,
 		"propBankHeightForFineDep": 0.1, "sedBulkDensity": 1.5, "manningsN": 0.04, "fineSedSettVelocity": 1e-4, "fineSedReMobVelocity": 1e-3, "durationInSeconds": 86400}
@@ -85,7 +85,7 @@ func Stateful() []Table {
 	add("InstreamCoarseSediment", [][]float64{{0, 0, 0}, {2, 0.5, 0.1}, {50, 0, 3}}, 1, M{"durationInSeconds": 86400}, M{"durationInSeconds": 3600})
 	ipL := [][]float64{{0, 0, 0, 0, 0, 0, 0, 0}, {2, 0.5, 1e4, 5, 0.2, 1, 0.1, 0.2}, {2, 0.5, 1e4, 5, 0, 0, 0, -0.1}, {40, 3, 1e6, 120, 1, 1, 0.6, 0.5}, {2, 1, 0, 0, 0, 1, 0, 0}, {0, 0, 1e4, 5, 0, 0, 0, -0.3}}
 	add("InstreamParticulateNutrient", ipL, 1, M{"particulateNutrientConcentration": 0.002, "soilPercentFine": 35, "durationInSeconds": 86400}, M{"particulateNutrientConcentration": 0, "soilPercentFine": 100, "durationInSeconds": 3600})
-	idL := [][]float64{{0, 0, 0, 0, 0}, {2, 0.5, 1e4, 5, 0}, {40, 3, 1e6, 120, 0.1}, {2, 1, 2e5, 0.05, 0}, {2, 1, 0, 0, 0}}
+	idL := [][]float64{{0, 0, 0, 0, 0}, {0, 0, 1e4, 5, 0}, {2, 0.5, 1e4, 5, 0}, {40, 3, 1e6, 120, 0.1}, {2, 1, 2e5, 0.05, 0}, {2, 1, 0, 0, 0}}
 	dn := M{"doDecay": 1, "pointSourceLoad": 1000, "linkHeight": 3, "linkWidth": 20, "linkLength": 5000, "uptakeVelocity": 0.1, "durationInSeconds": 86400}
 	add("InstreamDissolvedNutrientDecay", idL, 1, dn, cp(dn, M{"doDecay": 0}), cp(dn, M{"pointSourceLoad": 0, "uptakeVelocity": 0}))
 
